@@ -184,3 +184,4 @@ pub mod c19;
 pub mod bundle;
 pub mod cutil;
 pub mod c31;
+pub mod c02;
